@@ -261,6 +261,16 @@ type BabbageBlockHeader struct {
 	Signature []byte
 }
 
+// MarshalCBOR returns the original bytes of a decoded block header so that
+// re-serialising an unmodified object reproduces what was on the wire (and
+// still hashes to its identifier), also for non-canonical encodings.
+func (h *BabbageBlockHeader) MarshalCBOR() ([]byte, error) {
+	if h.Cbor() != nil {
+		return h.Cbor(), nil
+	}
+	return cbor.EncodeGeneric(h)
+}
+
 type BabbageBlockHeaderBody struct {
 	cbor.StructAsArray
 	cbor.DecodeStoreCbor
